@@ -267,7 +267,7 @@ def block_jobs(ctx, invariants, ops, lite=False):
                 lines_gen(6, 2, 3, ["R", "F", "P"], blank=False, crossing=True, max_code=1),            # crossing regions: <a> <b> </a> </b>
                 dict(lines_gen(4, 2, 2, ["NV", "NN", "R"], blank=False), cfg={"targets": ["a", ""]}),   # valueless names, "" among the targets
                 lines_gen(4, 2, 2, ["R", "P"], blank=False, pad=" "),                                   # padded tags: <tag a='b' >
-                lines_gen(14, 3, 5, ["R", "P", "S", "SP", "SF", "U", "T", "F"], ws=(2,), base=ctx.seed % 2, simulate=(15 if lite else 80, 14)),
+                lines_gen(14, 3, 5, ["R", "P", "S", "SP", "SF", "U", "T", "F"], ws=(2,), base=ctx.seed % 2, simulate=(15 if lite else 40, 14)),
                 kitchen_sink(ctx, ["R", "P", "S", "U", "T", "F"], 12, 10 if lite else 40),
                 dict(lines_gen(5 - d // 2, 2, 2, ["R", "P", "T"], ws=(2,)), cfg=html)]
         ctx.job("block", gens=gens, invariants=invariants, ops=ops, cfg={"ds": "<", "de": ">"}, nontrivial=has_ready)
@@ -332,7 +332,7 @@ def unwrap_jobs(ctx, invariants, ops, lite=False):
                 lines_gen(6, 1, 1, ["Ru", "R"], free=(1,), blank=False, extra_attr=" xunwrap-block"),
                 lines_gen(6, 1, 1, ["R", "UXu"], free=(1,), blank=False, extra_attr=" unwrap-blocks UNWRAP-BLOCK"),
                 dict(lines_gen(10, 2, 2, ["Ru"], blank=False, free=(0,), free_code=False, max_code=6), constraint="FeasibleU"),   # nested blocks, tags in the same column
-                lines_gen(16, 3, 4, ["Ru", "R", "P", "Pu", "S", "Su"], free=(0, 1, 2), ws=(2,), simulate=(15 if lite else 80, 16)),
+                lines_gen(16, 3, 4, ["Ru", "R", "P", "Pu", "S", "Su"], free=(0, 1, 2), ws=(2,), simulate=(15 if lite else 30, 16)),
                 kitchen_sink(ctx, ["Ru", "R", "P", "Pu", "T", "Tu", "Su"], 14, 10 if lite else 40)]
         ctx.job("unwrap", gens=gens, invariants=invariants, ops=ops, cfg=cfg, nontrivial=has_ready)
         return
